@@ -205,7 +205,7 @@ def longest_match(camp):
 
 def run(pid, tier, seed):
     t0 = time.time()
-    shards, n = (8, 120) if tier == "quick" else (16, 3000)
+    shards, n = (16, 250) if tier == "quick" else (16, 3000)
     camp = core.Campaign()
     for name, rc in core.regress_cases(pid):
         for k, what in replay(pid, rc["case"]):
